@@ -30,7 +30,7 @@ Counter f_move_keep("fault.obj.move_source_kept_alive");
 Counter p_move_assign("probe.parser_move_assigned");
 Counter p_vector_overload("probe.parse_through_vector_overload");
 
-const char* const NAMES[5] = { "a", "b", "ab", "x", "long-name" };
+const char* const NAMES[6] = { "a", "b", "ab", "x", "long-name", "" }; // the last one: a "short-only" option
 const char* const LETTERS[7] = { "a", "b", "x", "", "ab", "A", "1" };
 const char* const GROUPS[3] = { nullptr, "g1", "arguments" }; // the second named group is titled like the default group
 const char* const ENVS[3] = { "NITRO_SIM_E0", "NITRO_SIM_E1", "NITRO_SIM_E2" };
@@ -189,7 +189,7 @@ struct GroupCache
 DeclResult apply_declare(no::parser& p, const Op& op, GroupCache* cache = nullptr)
 {
     DeclResult r;
-    int kind = static_cast<int>(op.a[0] % 3), group = static_cast<int>(op.a[1] % 3), name = static_cast<int>(op.a[2] % 5);
+    int kind = static_cast<int>(op.a[0] % 3), group = static_cast<int>(op.a[1] % 3), name = static_cast<int>(op.a[2] % 6);
     int mod = static_cast<int>(op.a[3] % M_N), arg = static_cast<int>(op.a[4]);
     bool in_modifier = false;
     r.cat = guarded([&] {
@@ -439,7 +439,7 @@ struct Exec
         {
         case K_DECLARE:
         {
-            int kind = static_cast<int>(op.a[0] % 3), group = static_cast<int>(op.a[1] % 3), name = static_cast<int>(op.a[2] % 5);
+            int kind = static_cast<int>(op.a[0] % 3), group = static_cast<int>(op.a[1] % 3), name = static_cast<int>(op.a[2] % 6);
             int mod = static_cast<int>(op.a[3] % M_N), arg = static_cast<int>(op.a[4]);
             int idx = m.find(name);
             bool conflict = idx >= 0 && (m.opts[static_cast<size_t>(idx)].kind != kind || m.opts[static_cast<size_t>(idx)].group != group);
@@ -622,7 +622,26 @@ struct Exec
             }
             last_aborted = got.cat != C_OK;
             // C13: a parser in which two options share a letter refuses to parse
-            if (dup && got.cat != C_DEV)
+            // a token that is not even a well-formed argument is rejected while the input is being
+            // tokenised, before the parser looks at its declaration: either error may come first then
+            bool malformed = false;
+            if (dup)
+            {
+                NoFault nf;
+                for (auto& t : toks)
+                {
+                    try
+                    {
+                        no::user_input probe(t);
+                        (void)probe;
+                    }
+                    catch (std::exception&)
+                    {
+                        malformed = true;
+                    }
+                }
+            }
+            if (dup && (malformed ? got.cat == C_OK : got.cat != C_DEV))
             {
                 // both properties speak here: C13 (a parser with a shared letter refuses to parse) and
                 // C14 (a fresh parser with this declaration refuses, the long-lived one does not)
@@ -690,15 +709,25 @@ struct Exec
                     const MOption& X = m.opts[x];
                     if (spelling == 1 && X.letter.empty())
                         continue;
+                    if (spelling == 0 && X.name == 5)
+                        continue; // an option without a long name is spelled by its letter only
                     std::vector<std::string> toks;
+                    bool unspellable = false;
                     for (size_t y = 0; y < m.opts.size(); y++)
                     {
                         const MOption& Y = m.opts[y];
                         if (y == x || Y.kind == 2)
                             continue;
-                        toks.push_back(std::string("--") + NAMES[Y.name]);
+                        if (Y.name == 5 && Y.letter.empty())
+                        {
+                            unspellable = !Y.has_default && !Y.optional;
+                            continue;
+                        }
+                        toks.push_back(Y.name == 5 ? "-" + Y.letter : std::string("--") + NAMES[Y.name]);
                         toks.push_back(std::string("val-") + NAMES[Y.name]);
                     }
+                    if (unspellable)
+                        continue; // a required option nobody can spell: every parse fails legitimately
                     std::string sp = spelling ? "-" + X.letter : std::string("--") + NAMES[X.name];
                     toks.push_back(sp);
                     if (X.kind != 2)
@@ -738,7 +767,7 @@ struct Exec
                             for (size_t y = 0; y < m.opts.size() && ok; y++)
                             {
                                 const MOption& Y = m.opts[y];
-                                if (y == x || Y.kind == 2)
+                                if (y == x || Y.kind == 2 || (Y.name == 5 && Y.letter.empty()))
                                     continue;
                                 std::string want = std::string("val-") + NAMES[Y.name];
                                 if (Y.kind == 0 && a.get(NAMES[Y.name]) != want)
@@ -875,7 +904,7 @@ public:
         auto declare = [&]() {
             Op op;
             op.kind = K_DECLARE;
-            int name = static_cast<int>(rng.below(5));
+            int name = rng.chance(1, 14) ? 5 : static_cast<int>(rng.below(5));
             int idx = m.find(name);
             int kind, group;
             if (idx >= 0 && !rng.chance(1, c13 ? 3 : 8))
@@ -964,7 +993,9 @@ public:
                 int reps = o.kind == 0 ? 1 : rng.range(1, 3);
                 for (int r = 0; r < reps; r++)
                 {
-                    bool use_short = !o.letter.empty() && rng.chance(1, 2);
+                    if (o.name == 5 && o.letter.empty())
+                        break; // cannot be spelled at all
+                    bool use_short = !o.letter.empty() && (o.name == 5 || rng.chance(1, 2));
                     std::string sp = use_short ? "-" + o.letter : std::string("--") + NAMES[o.name];
                     if (o.kind == 2)
                     {
